@@ -20,7 +20,7 @@ func init() {
 		ID:    "C20",
 		Title: "SETVAR/GETVAR behave as per-key registers in evaluation order",
 		Level: "exploration",
-		Rule: "DISTINCT over source rows that repeat as a whole; registers written in the arms of a CASE. numeric register keys; phase 'union': registers on both sides of UNION ALL (plain / derived / CTE / parenthesised right branch); phase 'reexec': a register-only WHERE on a Query executed again after another query changed the register, over inner arrays, and queries that differ only in white space inside a literal. register reads also inside select-list scalar subqueries; a share of the histories runs with CompletedCallback / UnReportedErrors / WithConstants next to WithVars. queries may carry ORDER BY on a projected or non-projected column (rows then compared as a multiset, the store exactly); phase 'grouped': GROUP BY [HAVING] with a per-group counter and previous-value register, judged by order-independent consequences of 'each group's select list is evaluated once'. each case = a history: 1..4 queries sharing one variable map (pre-populated or empty), each a select list of 1..8 items mixing SETVAR(k, e), GETVAR(k) and plain columns over 1..4 keys (e = row column, literal, arithmetic on row columns), over a table of 0..12 rows with optional WHERE. " +
+		Rule: "a CTE with registers in its body read by every branch of a union chain. DISTINCT over source rows that repeat as a whole; registers written in the arms of a CASE. numeric register keys; phase 'union': registers on both sides of UNION ALL (plain / derived / CTE / parenthesised right branch); phase 'reexec': a register-only WHERE on a Query executed again after another query changed the register, over inner arrays, and queries that differ only in white space inside a literal. register reads also inside select-list scalar subqueries; a share of the histories runs with CompletedCallback / UnReportedErrors / WithConstants next to WithVars. queries may carry ORDER BY on a projected or non-projected column (rows then compared as a multiset, the store exactly); phase 'grouped': GROUP BY [HAVING] with a per-group counter and previous-value register, judged by order-independent consequences of 'each group's select list is evaluated once'. each case = a history: 1..4 queries sharing one variable map (pre-populated or empty), each a select list of 1..8 items mixing SETVAR(k, e), GETVAR(k) and plain columns over 1..4 keys (e = row column, literal, arithmetic on row columns), over a table of 0..12 rows with optional WHERE. " +
 			"Oracle: a sequential per-key register model replays the history in evaluation order (rows in source order, select-list items left to right): every GETVAR column must equal the model's value at that point (NULL if never set), SETVAR must add no column, " +
 			"after each Exec the caller's map must equal the model's store, and later queries must observe earlier writes. Non-trivial = at least one GETVAR that observes a value written by an earlier SETVAR of the same history; distinct = distinct (table, queries, initial map).",
 		Assumptions: []string{
